@@ -112,4 +112,11 @@ PROPS = {
         'rule': "P = 2-6 processes over command / entrypoint (executable + arguments), environment, working dir, restart policy, readiness probe, dependencies; 1-3 successive updates P' obtained by keeping, removing or mutating each process (1-2 mutations out of: command, executable, argument, environment change/add/remove, working dir, probe, policy, back-off, dependency, description, namespace, shutdown signal) and adding new processes; in 35% of the cases the last configuration is applied twice (idempotence). Oracle: reference classification by the statement's launch-relevant field list, status map, configured set, instance identity (kept / terminated / launched with the new executable, arguments, environment and directory). Non-trivial = some process changed while another one stayed unchanged and alive; distinct = distinct case JSON",
         'assumptions': LIFE_ASSUME[:2] + ["changes confined to description, namespace or shutdown signal may or may not be reported as an update (the statement does not list them as launch-relevant)"],
     },
+    'C10': {
+        'tests': [tst('probes', 'TestC10Params', 1500, 30000),
+                  tst('lifecycle', 'TestC10Inject', 300, 6000),
+                  tst('probes', 'TestC10Prober', 2, 12, qshards=32, tshards=48, timeout_q=300, timeout_t=1200)],
+        'rule': "(1) parameters: the five probe integers from an edge set {0,+-1,2,3,10,65535,65536,+-2^31,+-2^40} or uniform int32, port strings (empty, numeric, out of range, junk), both probe kinds, through ValidateAndSetDefaults and through a full loader.Load: legality predicate + idempotence; (2) coupling, injected outcomes: a probed process (policy in {'',no,always,on_failure} x max_restarts) or a daemon with a liveness probe, 1-10 steps of probe ok / fail / gave-up (fatal), exits, stop: reported health and stop/relaunch compared with the statement after every step, process_healthy dependent launched only after a success; (3) the real Prober against a scripted HTTP target (200 / 500, period 1 s, threshold 1-3): callback ok/fatal sequence vs consecutive-failure count. Non-trivial = an illegal configured value, a script that reaches the threshold or flips ok<->fail; distinct = distinct case JSON",
+        'assumptions': LIFE_ASSUME[:2] + ["success_threshold is documented as not respected and is not asserted", "the real-time prober cases are bounded by the 1 s period; a case whose callbacks do not arrive in time is inconclusive, never a violation"],
+    },
 }
